@@ -270,6 +270,37 @@ def shape_rule(ctx, short: str) -> None:
     arg = f.params[1]
     c = f.qualname
     rets = [n for n in fv.cfg.nodes if n.kind == "stmt" and isinstance(n.ast, ast.Return) and n.ast.value is not None]
+    if len(rets) > 1:
+        # a shortcut return whose value does not depend on *which* wells were given (only on their number / shape, or on
+        # nothing at all) cannot be the element-wise image of the argument
+        blind = []
+        for rn_ in rets:
+            v_ = fv.res.resolve(rn_.ast.value, rn_.id)
+            uses = False
+            for x in ast.walk(v_):
+                if isinstance(x, ast.Name) and x.id == arg:
+                    uses = True
+            # reads of the argument that only look at its shape / size / length do not count
+            shape_only = {id(y) for x in ast.walk(v_) if isinstance(x, ast.Attribute) and x.attr in ("shape", "size", "ndim") for y in ast.walk(x.value)}
+            shape_only |= {id(y) for x in ast.walk(v_) if isinstance(x, ast.Call) and call_fname(x) == "len" for y in ast.walk(x)}
+            uses = any(isinstance(x, ast.Name) and x.id == arg and id(x) not in shape_only for x in ast.walk(v_))
+            opaque = any(is_sym(x) for x in ast.walk(v_))  # loop-built lists, merged definitions ...: may well depend on the argument
+            empty_case = False
+            for r_, pol_, _br in fv.atoms_at(rn_.id):
+                if isinstance(r_, ast.Compare) and len(r_.ops) == 1 and isinstance(r_.ops[0], ast.Eq) and pol_ and isinstance(r_.comparators[0], ast.Constant) and r_.comparators[0].value == 0:
+                    l_ = r_.left
+                    if (isinstance(l_, ast.Attribute) and l_.attr == "size") or (isinstance(l_, ast.Call) and call_fname(l_) == "len"):
+                        empty_case = True  # nothing to map: the result cannot depend on the (absent) wells
+                if isinstance(r_, (ast.Name, ast.Attribute, ast.Call)) and not pol_ and (isinstance(r_, ast.Call) and call_fname(r_) == "len" or isinstance(r_, ast.Attribute) and r_.attr == "size"):
+                    empty_case = True
+            if not uses and not opaque and not empty_case:
+                blind.append(rn_)
+        if blind and len(blind) < len(rets):
+            rn_ = blind[0]
+            conds = [show(r)[:50] for r, pol, br in fv.atoms_at(rn_.id)][:3]
+            ctx.rep.refuted(rule, c + "/shortcut", f"`{stmt_key(rn_.ast)[:70]}` returns a value that does not depend on which wells were given (only on {', '.join(conds) or 'state of the object'}): for an "
+                            "argument of that shape in another order (reversed, transposed, already transformed) the result is not the element-wise image", where=f.where(rn_.ast))
+            return
     if len(rets) != 1:
         ctx.rep.inconclusive(rule, c, f"expected one return, found {len(rets)}")
         return
